@@ -466,7 +466,8 @@ class Log():
         # If the log configuration contains variables that we added without
         # type (i.e we want the stored as type for fetching as well) then
         # resolve this now and add them to the block again.
-        for name in logconf.default_fetch_as:
+        while len(logconf.default_fetch_as) > 0:
+            name = logconf.default_fetch_as[0]
             var = self.toc.get_element_by_complete_name(name)
             if not var:
                 logger.warning(
@@ -474,8 +475,11 @@ class Log():
                 logconf.valid = False
                 raise KeyError('Variable {} not in TOC'.format(name))
             # Now that we know what type this variable has, add it to the log
-            # config again with the correct type
+            # config again with the correct type. The name is resolved now, do
+            # not add it once more if the configuration is added again (e.g.
+            # after a reconnect)
             logconf.add_variable(name, var.ctype)
+            logconf.default_fetch_as.pop(0)
 
         # Now check that all the added variables are in the TOC and that
         # the total size constraint of a data packet with logging data is
